@@ -42,6 +42,7 @@ def strategy(draw, tier="quick"):
         "perm": draw(st.sampled_from([0, 0, 2, "rev"])),
         "chains": [[draw(st.sampled_from(xform.SINGLE)), draw(st.sampled_from(xform.SINGLE))] for _ in range(4)],
         "pick": draw(st.integers(0, 30)),
+        "extra": draw(gen.derived_strings(g, k=2, maxlen=5)) if draw(st.integers(0, 3)) == 0 else [],
         "n": 3,
     }
 
@@ -93,6 +94,10 @@ def check(case, ctx):
     ctx.cls(*gen.classify(g), "regime:" + g["regime"])
     cfg = ctx.call("build", lib_cfg, M, g, case.get("perm"))
     strings = gen.all_strings(g["V"], case.get("n", 3))
+    from vf.cfgref import sym
+
+    longer = [tuple(sym(y) for y in s) for s in case.get("extra", [])]
+    strings = strings + [s for s in dict.fromkeys(longer) if s not in set(strings)]
     want = {xs: ref(xs) for xs in strings}
     base = rule_multiset(cfg)
     changed = False
